@@ -225,7 +225,7 @@ def run(ctx):
     ctx.build(extra_modules=["PV.Model.ChanDriver"])
     batches = []
     grid(ctx, ctx.rng, batches)
-    random_part(ctx, ctx.rng, 6000 if ctx.thorough else 800, batches)
+    random_part(ctx, ctx.rng, 12000 if ctx.thorough else 3000, batches)
     c19.compare(ctx, "C25", batches)
 
 
